@@ -18,6 +18,10 @@ for d in sorted(x for x in os.listdir(src) if x.startswith('MUTANT')):
     marker = os.path.join(md, '.imported')
     if os.path.exists(marker):
         continue
+    try:
+        os.mkdir(os.path.join(md, '.claim'))          # several importers may walk the same directory
+    except FileExistsError:
+        continue
     sid = None
     for letter in string.ascii_lowercase:          # reserve the id atomically (several imports may run side by side)
         try:
